@@ -1,11 +1,13 @@
-(* Codec/ProofsRT.v — the generic XML round-trip theorem for the method-free fragment:
-   for every type expression whose static description passes [tyok] (scalars, time.Time,
-   pointers to structs, slices, structs without hand-written XML methods and without a>b
-   paths, attribute fields of scalar / time / pointer-to-scalar type, distinct attribute names,
-   distinct element names, XMLName tag equal to the name it is used under) and every
-   well-formed value of it:  what marshal writes, unmarshal reads back to the same value —
-   for every amount of fuel above the value's depth.  [tyok] is a boolean evaluated by
-   vm_compute on the schema regenerated from /repo. *)
+(* Codec/ProofsRT.v — the generic XML round-trip theorem.
+
+   For every type expression whose static description passes [tyok] (scalars, time.Time,
+   pointers to structs, slices, structs with attribute fields of scalar / time /
+   pointer-to-scalar type, distinct attribute names, distinct element keys, at most one level
+   of a>b, XMLName tag equal to the name the struct is used under, and the types with the
+   transcribed methods Bounds.MarshalXML, Date.Marshal/UnmarshalXML,
+   ChangesetDiscussion.MarshalXML) and every well-formed value of it: what marshal writes,
+   unmarshal reads back to the same value — for every amount of fuel above the value's depth.
+   [tyok] is a boolean evaluated by vm_compute on the schema regenerated from /repo. *)
 From Coq Require Import List String Bool ZArith Lia.
 From Verif Require Import Codec.Schema Codec.Value Codec.Xml Codec.Wf Codec.ProofsAttr Codec.ProofsKids.
 Import ListNotations.
@@ -19,6 +21,7 @@ Notation rk := (rk sch).
 Definition is_scalar (k : rkind) : bool :=
   match k with RInt | RFloat | RBool | RString | RTime => true | _ => false end.
 Definition is_struct (k : rkind) : bool := match k with RStruct _ => true | _ => false end.
+Definition zero_unique (k : rkind) : bool := match k with RStruct _ | RBad => false | _ => true end.
 
 Definition attr_ty_ok (ty : gotype) : bool :=
   match rk ty with
@@ -26,29 +29,66 @@ Definition attr_ty_ok (ty : gotype) : bool :=
   | k => is_scalar k
   end.
 
-Definition no_hooks (ty : gotype) : bool :=
-  match marshal_hook sch ty, unmarshal_hook sch ty with None, None => true | _, _ => false end.
+(* static conditions on one field, given the check [ok] for element field types *)
+Definition field_cond (ok : gotype -> string -> bool -> bool -> bool) (f : field) : bool :=
+  if x_skip (f_xml f) then zero_unique (rk (f_type f))
+  else if is_attr f then attr_ty_ok (f_type f)
+  else negb (String.eqb (eff_name sch f) "")
+       && match x_parents (f_xml f) with
+          | [] => true
+          | _ => match rk (f_type f) with RSlice _ => true | _ => false end
+          end
+       && ok (f_type f) (eff_name sch f) (x_omitempty (f_xml f)) false.
+
+Definition field_conds (ok : gotype -> string -> bool -> bool -> bool) (fs : list field) : bool :=
+  all_supported fs && nodup_strb (attr_names sch fs) && nodup_strb (elem_keys sch fs)
+  && parents_ok fs && forallb (field_cond ok) fs.
+
+Definition is_ustruct (d : typedef) : bool :=
+  match t_under d with UStruct _ _ => true | UType _ => false end.
+
+Definition single_field (d : typedef) : option field :=
+  match struct_fields d with [f] => Some f | _ => None end.
 
 Fixpoint tyok (k : nat) (ty : gotype) (nm : string) (omit inslice : bool) : bool :=
   match k with
   | O => false
   | S k' =>
-      no_hooks ty &&
-      match rk ty with
-      | RPtr t => is_struct (rk t) && tyok k' t nm false inslice
-      | RSlice t => negb inslice && tyok k' t nm omit true
-      | RStruct d =>
-          let fs := struct_fields d in
-          (String.eqb (xmlname_tag d) "" || String.eqb (xmlname_tag d) nm)
-          && all_supported fs && nodup_strb (attr_names sch fs) && nodup_strb (elem_names sch fs)
-          && no_parents fs
-          && forallb (fun f =>
-                        if x_skip (f_xml f) then negb (is_struct (rk (f_type f)))
-                        else if is_attr f then attr_ty_ok (f_type f)
-                        else negb (String.eqb (eff_name sch f) "")
-                             && tyok k' (f_type f) (eff_name sch f) (x_omitempty (f_xml f)) false) fs
-      | RBad => false
-      | _ => negb (omit && inslice)
+      match marshal_hook sch ty, unmarshal_hook sch ty with
+      | None, None =>
+          match rk ty with
+          | RPtr t => is_struct (rk t) && tyok k' t nm false inslice
+          | RSlice t => negb inslice && tyok k' t nm omit true
+          | RStruct d =>
+              (String.eqb (xmlname_tag d) "" || String.eqb (xmlname_tag d) nm)
+              && field_conds (tyok k') (struct_fields d)
+          | RBad => false
+          | _ => negb (omit && inslice)
+          end
+      | Some d, None =>
+          is_ustruct d &&
+          if String.eqb (t_name d) "Bounds" then
+            String.eqb nm "bounds" && String.eqb (xmlname_tag d) ""
+            && field_conds (tyok k') (struct_fields d)
+          else if String.eqb (t_name d) "ChangesetDiscussion" then
+            (String.eqb (xmlname_tag d) "" || String.eqb (xmlname_tag d) nm)
+            && match single_field d with
+               | Some f =>
+                   String.eqb (f_name f) "Comments" && is_elem f && field_supported f
+                   && String.eqb (eff_name sch f) "comment"
+                   && match x_parents (f_xml f) with [] => true | _ => false end
+                   && tyok k' (f_type f) "comment" false false
+               | None => false
+               end
+          else false
+      | Some d, Some _ =>
+          is_ustruct d && String.eqb (t_name d) "Date"
+          && match single_field d with
+             | Some f => String.eqb (f_name f) "Time"
+                         && match rk (f_type f) with RTime => true | _ => false end
+             | None => false
+             end
+      | None, Some _ => false
       end
   end.
 
@@ -83,15 +123,11 @@ Definition RT (n : nat) : Prop :=
 
 (* ---------- the struct decoder is field-wise ---------- *)
 
-(* Decoding a struct element treats every field independently: the loop nest of unmarshal
-   (attributes x fields, then children routed to the first matching field) computes, for each
-   field, the fold of that field's own hits — whenever element names are distinct and no a>b
-   path is used.  All fuel levels, all documents (unknown attributes / elements included). *)
 Theorem unmarshal_struct_fieldwise : forall unm d bs e st1 st2,
   all_supported (struct_fields d) = true ->
   (String.eqb (xmlname_tag d) "" || String.eqb (xmlname_tag d) (xname e)) = true ->
-  no_parents (struct_fields d) = true ->
-  nodup_strb (elem_names sch (struct_fields d)) = true ->
+  parents_ok (struct_fields d) = true ->
+  nodup_strb (elem_keys sch (struct_fields d)) = true ->
   Forall3 (fun f b r => absorb_attrs sch f b (xattrs e) = Ok r) (struct_fields d) bs st1 ->
   Forall3 (fun f b r => absorb_kids sch unm f b (xkids e) = Ok r) (struct_fields d) st1 st2 ->
   unmarshal_struct sch unm d (VStruct bs) e = Ok (VStruct st2).
@@ -104,15 +140,65 @@ Proof.
   rewrite (unmarshal_kids_pointwise _ _ _ _ _ _ Hnp Hnd Hk). reflexivity.
 Qed.
 
-(* ---------- attribute fields: written then read gives the value back ---------- *)
+(* ---------- zero values ---------- *)
+
+Lemma fields_all_imp : forall (P Q P' Q' : gotype -> value -> bool) fs vs,
+  (forall ty x, P ty x = true -> P' ty x = true) ->
+  (forall ty x, Q ty x = true -> Q' ty x = true) ->
+  fields_all P Q fs vs = true -> fields_all P' Q' fs vs = true.
+Proof.
+  intros P Q P' Q' fs. induction fs as [|f fs IH]; intros vs HP HQ H; destruct vs as [|x vs]; cbn in *; try discriminate; [reflexivity|].
+  apply andb_true_iff in H. destruct H as [H1 H2]. rewrite (IH _ HP HQ H2), andb_true_r.
+  destruct (x_skip (f_xml f)); [apply HQ | apply HP]; exact H1.
+Qed.
+
+(* the allocated zero of a type is zero-like at every depth some value of the type lives at *)
+Lemma zero_like_zero : forall n k ty x,
+  (n <= k)%nat -> (wf sch n ty x = true \/ zero_like sch n ty x = true) ->
+  zero_like sch n ty (zero sch k ty) = true.
+Proof.
+  induction n as [|n IH]; intros k ty x Hle H; [destruct H; discriminate|].
+  destruct k as [|k]; [lia|]. cbn [zero_like zero wf] in *.
+  destruct (rk ty) eqn:Hk; try reflexivity.
+  assert (Hf : exists xs, fields_all (fun t y => wf sch n t y || zero_like sch n t y)
+                                     (fun t y => wf sch n t y || zero_like sch n t y) (struct_fields d) xs = true).
+  { destruct H as [H|H]; destruct x; try discriminate.
+    - apply andb_true_iff in H. destruct H as [H _]. exists fs.
+      eapply fields_all_imp; [| |exact H]; intros t y E; rewrite E; [reflexivity | apply orb_true_r].
+    - exists fs. eapply fields_all_imp; [| |exact H]; intros t y E; rewrite E; apply orb_true_r. }
+  destruct Hf as [xs Hf]. clear H. revert xs Hf.
+  induction (struct_fields d) as [|f fs IHf]; intros xs Hf; [reflexivity|].
+  destruct xs as [|y ys]; [discriminate|]. cbn [map fields_all] in *.
+  apply andb_true_iff in Hf. destruct Hf as [H1 H2].
+  assert (Hz : zero_like sch n (f_type f) (zero sch k (f_type f)) = true).
+  { apply IH with (x := y); [lia|]. destruct (x_skip (f_xml f)); apply orb_true_iff in H1; exact H1. }
+  rewrite Hz. destruct (x_skip (f_xml f)); cbn [andb]; exact (IHf _ H2).
+Qed.
+
+Lemma zero_like_unique : forall n ty a b,
+  zero_unique (rk ty) = true -> zero_like sch n ty a = true -> zero_like sch n ty b = true -> a = b.
+Proof.
+  intros n ty a b Hu Ha Hb. destruct n; [discriminate|]. cbn [zero_like] in *.
+  destruct (rk ty); cbn in Hu; try discriminate;
+    destruct a as [za|qa|ba|sa|ta|oa|la|fa|]; try discriminate; destruct b as [zb|qb|bb|sb|tb|ob|lb|fb|]; try discriminate.
+  - apply Z.eqb_eq in Ha, Hb. subst. reflexivity.
+  - apply Z.eqb_eq in Ha, Hb. subst. reflexivity.
+  - destruct ba, bb; try discriminate. reflexivity.
+  - destruct sa, sb; try discriminate. reflexivity.
+  - apply Z.eqb_eq in Ha, Hb. subst. reflexivity.
+  - destruct oa, ob; try discriminate. reflexivity.
+  - destruct la, lb; try discriminate. reflexivity.
+Qed.
+
+(* ---------- attribute fields ---------- *)
 
 Lemma attr_rt_of_wf : forall n f v b,
   attr_ty_ok (f_type f) = true ->
-  wf sch (S (S n)) (f_type f) v = true ->
-  zero_like sch (S (S n)) (f_type f) b = true ->
+  wf sch n (f_type f) v = true ->
+  zero_like sch n (f_type f) b = true ->
   attr_field_rt sch f v b.
 Proof.
-  intros n f v b Hty Hwf Hz Ha. unfold attr_ty_ok in Hty.
+  intros n f v b Hty Hwf Hz Ha. unfold attr_ty_ok in Hty. destruct n; [discriminate|].
   cbn [wf] in Hwf. cbn [zero_like] in Hz. unfold AFUEL. cbn [attr_atom attr_value].
   destruct (rk (f_type f)) eqn:Hk; cbn [is_scalar] in Hty; try discriminate.
   - destruct v; try discriminate. destruct b; try discriminate. cbn [is_empty]. apply Z.eqb_eq in Hz. subst.
@@ -133,13 +219,25 @@ Proof.
     + destruct (x_omitempty (f_xml f)); reflexivity.
     + rewrite andb_false_r. reflexivity.
   - destruct v; try discriminate. destruct b; try discriminate. cbn [is_empty]. rewrite andb_false_r. reflexivity.
-  - (* pointer to a scalar *)
-    destruct v as [| | | | |o| | |]; try discriminate. destruct b as [| | | | |ob| | |]; try discriminate.
+  - destruct v as [| | | | |o| | |]; try discriminate. destruct b as [| | | | |ob| | |]; try discriminate.
     destruct ob; [discriminate|]. destruct o as [v'|].
-    + cbn [is_empty]. rewrite andb_false_r. cbn [wf] in Hwf.
+    + cbn [is_empty]. rewrite andb_false_r. destruct n; [discriminate|]. cbn [wf] in Hwf.
       destruct (rk t) eqn:Hkt; cbn [is_scalar] in Hty; try discriminate;
         destruct v'; try discriminate; reflexivity.
     + cbn [is_empty]. destruct (x_omitempty (f_xml f)); reflexivity.
+Qed.
+
+Lemma attr_atom_ok : forall n ty v,
+  attr_ty_ok ty = true -> wf sch n ty v = true -> exists oa, attr_atom sch AFUEL ty v = Ok oa.
+Proof.
+  intros n ty v Hty Hwf. unfold attr_ty_ok in Hty. destruct n; [discriminate|]. cbn [wf] in Hwf.
+  unfold AFUEL. cbn [attr_atom].
+  destruct (rk ty) eqn:Hk; cbn [is_scalar] in Hty; try discriminate;
+    try (destruct v; try discriminate; eexists; reflexivity).
+  destruct v as [| | | | |o| | |]; try discriminate. destruct o as [v'|]; [|eexists; reflexivity].
+  destruct n; [discriminate|]. cbn [wf] in Hwf.
+  destruct (rk t) eqn:Hkt; cbn [is_scalar] in Hty; try discriminate;
+    destruct v'; try discriminate; eexists; reflexivity.
 Qed.
 
 End RT.
